@@ -2,6 +2,7 @@ package server
 
 import (
 	"encoding/json"
+	"errors"
 	"runtime"
 	"strconv"
 	"sync/atomic"
@@ -12,8 +13,9 @@ import (
 )
 
 var (
-	errInvalidCommand = common.ErrInvalidCommand
-	costStatsLevel    int32
+	errInvalidCommand         = common.ErrInvalidCommand
+	errKeysNotInSamePartition = errors.New("ERR keys in the command should be in the same partition")
+	costStatsLevel            int32
 )
 
 // TODO: maybe provide reusable memory buffer for req and response
